@@ -25,7 +25,7 @@ fn mods_menu(dst: u8, rich: bool) -> Vec<ModSpec> {
         }
         2 => v.push(ModSpec::Mirror(None)),
         3 => {
-            v.extend([ModSpec::Bits(settings::KEY4), ModSpec::Bits(settings::KEY7), ModSpec::HoldOff, ModSpec::Invert]);
+            v.extend([ModSpec::Bits(settings::KEY4), ModSpec::Bits(settings::KEY7), ModSpec::HoldOff, ModSpec::Invert, ModSpec::HoIn(None)]);
             if rich {
                 v.extend([ModSpec::Bits(settings::KEY1), ModSpec::Bits(settings::KEY9), ModSpec::TenKeys, ModSpec::Random(Some(7.0))]);
             }
@@ -67,7 +67,7 @@ fn main() {
     let ctx = Ctx::from_env("C14");
     ctx.rule("case = (mode configuration, grammar map); per case: mods menu (NM, HR, DT, Mirror variants, key mods, HoldOff, Invert, ...) x n in 0..=total+2; oracle = an independent counter over the converted Beatmap: osu circles/sliders/spinners of the prefix, taiko max_combo = hits, mania n_objects / n_hold_notes (HoldOff -> 0 holds), catch fruits = circles + slider heads + repeats + tails (full map); counted amount = min(n, total); every count non-decreasing in n; n > total gives the same attributes as not limiting; is_convert <=> converted; non-trivial = map has objects");
 
-    let n_max = ctx.pick(3, 4);
+    let n_max = ctx.pick(4, 5);
     let mut opts = UniOpts::new(n_max);
     opts.kinds_std = vec![gen::Kind::Circle, gen::Kind::Slider1, gen::Kind::Slider2, gen::Kind::Spinner(600)];
     if ctx.quick() {
@@ -112,7 +112,7 @@ fn main() {
                 };
                 l.checked(1);
                 // Invert rebuilds the object list inside the calculation (the last note of a column has no successor to hold to)
-                if dst != 2 && !matches!(m, ModSpec::Invert) && total != want_total {
+                if dst != 2 && !matches!(m, ModSpec::Invert | ModSpec::HoIn(_)) && total != want_total {
                     l.violation("total", || ctxs(format!("full calculation counts {total} but the converted map has {want_total}: {full:?}")));
                     return;
                 }
@@ -136,7 +136,7 @@ fn main() {
                                 l.violation("holdoff", || ctxs(format!("HoldOff but n_hold_notes={}", a.n_hold_notes)));
                                 return;
                             }
-                        } else if !matches!(m, ModSpec::Invert) {
+                        } else if !matches!(m, ModSpec::Invert | ModSpec::HoIn(_)) {
                             l.checked(1);
                             if a.n_hold_notes != s + sp + h {
                                 l.violation("mania_holds", || ctxs(format!("n_hold_notes={} but the converted map has {} long notes", a.n_hold_notes, s + sp + h)));
@@ -172,7 +172,7 @@ fn main() {
                         }
                     }
                     if let DifficultyAttributes::Mania(ma) = &a {
-                        if !matches!(m, ModSpec::HoldOff | ModSpec::Invert | ModSpec::Random(_)) {
+                        if !matches!(m, ModSpec::HoldOff | ModSpec::Invert | ModSpec::Random(_) | ModSpec::HoIn(_)) {
                             let (_, ps, psp, ph) = kind_counts(&conv, n as usize);
                             if ma.n_hold_notes != ps + psp + ph {
                                 l.violation("mania_split", || ctxs(format!("passed_objects({n}): n_hold_notes={} but prefix has {}", ma.n_hold_notes, ps + psp + ph)));
